@@ -17,20 +17,30 @@ EC = 'openmdao/components/exec_comp.py'
 DRIVERS = ('ExecComp.compute_partials', 'ExecComp._compute_colored_partials', 'ExecComp._compute_coloring')
 
 describe('C14',
-         'Decides for ExecComp (components/exec_comp.py): every complex-step perturbation `T += step` is '
-         'followed in the same iteration by _exec() and by exactly one `T -= step` on the same target; '
-         'every read of the complex outputs inside a perturbation is imag(out * k) with step*k == 1j; the '
-         'results are stored under (of, wrt) = (output whose view was read, input whose view was '
-         'perturbed) and in the column of the perturbed element; _setup_partials declares every '
-         '(out, inp) pair of every expression exactly once and the declared kind (diagonal/dense) agrees, '
-         'on an abstract domain of sizes, with the perturbation mode compute_partials chooses; the '
-         'complex work arrays are synchronised with the input vector before use and copied back after; '
-         'the sparsity pass of _compute_coloring leaves the inputs as found; the complex views pair '
-         'inputs with _inarray and outputs with _outarray; non-analytic numpy functions never enter the '
-         'function table unwrapped.  Does not decide the numerical value of any expression.',
+         'Decides for ExecComp (components/exec_comp.py): (perturb) every complex-step perturbation `T += step` '
+         'in compute_partials / _compute_colored_partials is followed in the same iteration by _exec() and by '
+         'exactly one `T -= step` on the same, un-rebound target (in the sparsity pass of _compute_coloring only '
+         'perturb -> evaluate is required: a left-over step merely enlarges the sparsity); (extract) every read of '
+         'the complex outputs happens inside a perturbation, after _exec(), as imag(out * k) with step * k == 1j; '
+         '(slot) results are stored under (of, wrt) = (output whose view was read, input whose view was perturbed), '
+         'in the column of the perturbed element, colored columns are gathered by the rows of the same column, '
+         'mapped through _col_idx2name/_in_slices/_out_slices built from the right vector, and the scratch column '
+         'is cleared between columns; (declare) _setup_partials declares every (out, rhs-variable) pair of every '
+         'expression exactly once before super()._setup_partials(); (diag) on an abstract domain '
+         '{has_diag_partials} x {input: scalar, size 1, size n} x {output: scalar, size 1, size n, size m} the '
+         'declared kind (diagonal / dense / raise) agrees with the perturbation under which compute_partials '
+         'stores that pair (whole array / one element); (sync, views, exec) the complex work arrays are paired '
+         'with the right vectors, taken in complex mode, refreshed in place from the inputs before use, copied back '
+         'after compute, expressions run on the complex views with the function table as globals and store in '
+         'place; (coloring) the sparsity pass visits every input element, records its own column, and leaves the '
+         'input vector as found; (table) no non-analytic numpy function enters _expr_dict unwrapped and aliases name '
+         'the same function.  Every mutant of the self-test was also confirmed to change run-time results and every '
+         'twin to preserve them (/tmp/c14/mutant_runtime.py).  Does not decide the numerical value of any '
+         'expression nor the complex-analyticity of numpy itself.',
          ['complex_stepsize is small enough for complex step to be exact to round-off',
           'numpy functions outside the frozen non-analytic table are complex-analytic',
-          'exceptions raised by _exec abort the run (no restore needed on exceptional paths)'])
+          'exceptions raised by _exec abort the run (no restore needed on exceptional paths)',
+          'a (out, inp) pair reaching a jacobian store is a declared pair (`key in partials` is true for it)'])
 
 
 # =========================================================================== generic helpers
@@ -137,8 +147,7 @@ class Driver:
                                     'complex input array'))
                 continue
             if not is_step:
-                if s is not None or isinstance(n.ast.op, (ast.Add, ast.Sub)) and \
-                        isinstance(n.ast.value, ast.Name) and False:
+                if s is not None:
                     self.odd.append((n, f'the input view is modified by `{astx.src(n.ast.value)}`, which is '
                                         'not the complex step'))
                 else:
@@ -211,7 +220,27 @@ class Driver:
         return b
 
     def mates(self, a):
-        return [s for s in self.subs if astx.same(s.ast.target, a.ast.target)]
+        """`-= step` statements on the same target that can follow `a` within the same iteration."""
+        near = self.g.reach(self.g.normal_succ(a), avoid=self.boundary(a), labels=cfgm.noexc)
+        return [s for s in self.subs if astx.same(s.ast.target, a.ast.target) and s in near]
+
+    def origin_iters(self, name, at, depth=0):
+        """For-loop statements that bind `name` as seen from `at`, looking through `name += ...` updates."""
+        res = []
+        if depth > 6:
+            return [None]
+        for dn in self.rd.defs(at, name):
+            if dn.kind == 'iter' and isinstance(dn.ast, ast.For):
+                res.append(dn.ast)
+            elif dn.kind == 'stmt' and isinstance(dn.ast, ast.AugAssign):
+                res.extend(self.origin_iters(name, dn, depth + 1))
+            else:
+                res.append(None)
+        uniq = []
+        for x in res:
+            if not any(x is y for y in uniq):
+                uniq.append(x)
+        return uniq
 
     def region(self, a):
         """Nodes executed while the perturbation applied at `a` is in place."""
@@ -351,8 +380,8 @@ def perturb(repo, out):
                 out.unsure(fn, n.ast, 'modification of an input view that is not recognised as a complex step')
             else:
                 out.bad(fn, n.ast, why, key='perturb-step')
-        if not d.execs:
-            raise AnalysisError(f'{fn.ident}: no self._exec() call')
+        if not d.execs and not d.adds:
+            raise AnalysisError(f'{fn.ident}: neither a perturbation nor a self._exec() call found')
         for a in d.adds:
             s = scale(a.ast.value, rd, a)
             if s[0] != 1:
@@ -360,6 +389,17 @@ def perturb(repo, out):
                 continue
             mates = d.mates(a)
             bnd = d.boundary(a)
+            if qn.endswith('_compute_coloring'):
+                # sparsity pass: a left-over step only makes later columns a superset of the true pattern
+                # (still a valid coloring), so only perturb -> evaluate is required here
+                w = g.path(g.normal_succ(a), bnd + mates, avoid=d.execs, labels=cfgm.noexc)
+                if w is not None:
+                    # an empty sparsity deactivates the coloring and the uncolored path is used: not a
+                    # violation of the property, but not a shape this rule can vouch for either
+                    out.unsure(fn, a.ast, 'the sparsity perturbation is not followed by self._exec(): ' + g.fmt_path(w))
+                else:
+                    out.ok(fn, a.ast, 'sparsity pass: += step -> _exec() in every iteration')
+                continue
             if not mates:
                 cand = [x for x in d.subs if root_name(x.ast.target) is not None and
                         root_name(a.ast.target) is not None and
@@ -414,6 +454,8 @@ def perturb(repo, out):
                 continue
             out.ok(fn, a.ast, f'+= step -> _exec() -> -= step on `{astx.src(a.ast.target)}` on every path')
         for sb in d.subs:
+            if qn.endswith('_compute_coloring'):
+                break
             same_t = [a for a in d.adds if astx.same(a.ast.target, sb.ast.target)]
             if not same_t or g.dominated_by(sb, same_t, labels=cfgm.noexc) is not None:
                 out.bad(fn, sb.ast, '`-= step` without a preceding `+= step` on the same target: the input '
@@ -441,6 +483,16 @@ def extract(repo, out):
             continue
         st = steps.pop()
         regions = {a: d.region(a) for a in d.adds}
+        if qn.endswith('_compute_coloring'):
+            # no restore required there (see C14.perturb): the perturbation lasts until the loop header
+            regions = {a: g.reach(g.normal_succ(a), avoid=d.boundary(a), labels=cfgm.noexc) for a in d.adds}
+        for n in g.where(lambda n: n.kind in ('stmt', 'test')):
+            for c in n.calls():
+                if astx.call_name(c) in IMAG_FUNCS and c.args:
+                    for w in astx.walk(c.args[0]):
+                        if isinstance(w, ast.Name) and d.view_kind(w, n) in ('inarr', 'view'):
+                            out.bad(fn, n.ast, f'imag() is taken of the perturbed INPUT array `{w.id}`, not of the '
+                                    'outputs: the "derivative" is the identity', key='extract-source')
         for nm_node, at, sure in d.out_reads():
             for wr, top, consumer, at2 in climb(nm_node, d, at):
                 kinds = [k for k, _, _ in wr]
@@ -545,7 +597,7 @@ def _check_column_index(idx):
     return '?', None
 
 
-@rule('C14.slot', floor=9)
+@rule('C14.slot', floor=15)
 def slot(repo, out):
     """Results are stored under (of, wrt) = (output read, input perturbed) and in the column of the perturbed element."""
     # ---------------------------------------------------------------- compute_partials
@@ -555,12 +607,11 @@ def slot(repo, out):
     for a in d.adds:
         reg = d.region(a)
         r = root_name(a.ast.target)
-        inloop = _loop_of_target(r.id, a, rd) if r is not None and d.view_kind(a.ast.target, a) == 'view' else None
-        # the AugAssign itself redefines the view name; look through it
-        if inloop is None and r is not None:
-            for dn in rd.defs(a, r.id):
-                if dn.kind == 'iter':
-                    inloop = dn.ast
+        inloop = None
+        if r is not None and d.view_kind(a.ast.target, a) == 'view':
+            origins = d.origin_iters(r.id, a)
+            if len(origins) == 1 and origins[0] is not None:
+                inloop = origins[0]
         if inloop is None or not (isinstance(inloop.target, ast.Tuple) and len(inloop.target.elts) == 2
                                   and isinstance(inloop.target.elts[0], ast.Name)):
             out.unsure(fn, a.ast, 'loop binding the perturbed view and its input name not recognised')
@@ -737,6 +788,18 @@ def slot(repo, out):
         if p not in seen:
             out.bad(fn, fn.node, f'{p} is never built although _compute_colored_partials reads it',
                     key='slice-map-source')
+    cc = [c for c in astx.calls(fn.node) if astx.call_name(c) == '_compute_coloring' and len(c.args) >= 1]
+    if len(cc) != 1:
+        out.unsure(fn, fn.node, 'call of coloring._compute_coloring(sparsity, mode) not found')
+    else:
+        md = astx.arg(cc[0], 1, 'mode')
+        if astx.const_str(md) == 'fwd':
+            out.ok(fn, astx.stmt_of(cc[0]), "the coloring is computed for mode 'fwd' (columns = inputs)")
+        elif astx.const_str(md) is not None:
+            out.bad(fn, astx.stmt_of(cc[0]), f"the coloring is computed for mode {astx.const_str(md)!r} but "
+                    "_compute_colored_partials perturbs inputs, i.e. needs the 'fwd' colors", key='color-direction')
+        else:
+            out.unsure(fn, astx.stmt_of(cc[0]), 'coloring mode is not a literal')
 
 
 def _check_key(K, n, rd, wname, fn, out):
@@ -889,7 +952,7 @@ def _colored(fn, d, a, out):
         return
     cv, cat = resolve(rd, sn, cn)
     good = isinstance(cv, ast.BinOp) and isinstance(cv.op, ast.Sub) and isinstance(cv.left, ast.Name) and \
-        cv.left.id == icol and isinstance(cv.right, ast.Attribute) and cv.right.attr == 'start' and \
+        cv.left.id == icol and isinstance(cv.right, ast.Attribute) and cv.right.attr in ('start', 'stop') and \
         isinstance(cv.right.value, ast.Subscript) and \
         rpath(rd, cat, cv.right.value.value) == 'self._in_slices' and \
         isinstance(cv.right.value.slice, ast.Name) and cv.right.value.slice.id == wrt
@@ -901,11 +964,17 @@ def _colored(fn, d, a, out):
         else:
             out.unsure(fn, st, 'local column expression not recognised')
         return
+    # (`icol - stop` is the same column counted from the end: negative indices are accepted as equivalent)
     # part = scratch[out_slices[of]]
     pv, pat = resolve(rd, sn, E)
     goodp = isinstance(pv, ast.Subscript) and isinstance(pv.value, ast.Name) and pv.value.id == scratch and \
         isinstance(pv.slice, ast.Subscript) and rpath(rd, pat, pv.slice.value) == 'self._out_slices' and \
         isinstance(pv.slice.slice, ast.Name)
+    if isinstance(pv, ast.Subscript) and isinstance(pv.slice, ast.Subscript) and \
+            rpath(rd, pat, pv.slice.value) == 'self._in_slices':
+        out.bad(fn, st, f'`{astx.src(pv)}` selects the range of an INPUT in the output-sized scratch array: the rows '
+                f'stored under of=`{of}` belong to other outputs', key='key-value-mismatch')
+        return
     if not goodp:
         out.unsure(fn, st, 'stored value is not `scratch[self._out_slices[of]]`')
         return
@@ -1132,7 +1201,7 @@ def _declared_kinds(dl, out=None):
     return res
 
 
-@rule('C14.declare', floor=4)
+@rule('C14.declare', floor=5)
 def declare(repo, out):
     """_setup_partials declares (of=out, wrt=inp) for every output and every right-hand-side variable of every expression, before the framework resolves the declarations."""
     fn = repo.func(EC, 'ExecComp._setup_partials')
@@ -1167,8 +1236,7 @@ def declare(repo, out):
                 (isinstance(it, ast.Call) and astx.callee_attr(it) == 'difference' and
                  vs_v in astx.names(astx.receiver(it)) and outs_v not in astx.names(astx.receiver(it))) or \
                 (isinstance(it, ast.BinOp) and isinstance(it.op, ast.Sub) and vs_v in astx.names(it.left)
-                 and outs_v not in astx.names(it.left)) or \
-                (isinstance(it, ast.Call) and astx.call_name(it) == 'set' and False)
+                 and outs_v not in astx.names(it.left))
             if good:
                 role[var] = 'wrt'
             elif isinstance(it, (ast.Call, ast.BinOp)) and outs_v in nm:
@@ -1224,7 +1292,7 @@ def declare(repo, out):
             break
         if isinstance(a, ast.If):
             t = a.test
-            in_body = eloop in a.body or any(astx.in_body(eloop, a, 'body') for _ in (0,))
+            in_body = astx.in_body(eloop, a, 'body')
             is_manual = (isinstance(t, ast.UnaryOp) and isinstance(t.op, ast.Not) and
                          astx.path(t.operand) == 'self._manual_decl_partials' and in_body) or \
                         (astx.path(t) == 'self._manual_decl_partials' and not in_body)
@@ -1267,7 +1335,13 @@ def declare(repo, out):
 
 
 def _perturb_modes(repo):
-    """state -> {'whole', 'elem', ...} chosen by compute_partials, plus the function and driver."""
+    """state -> (set of store kinds reached for one (out, inp) pair, tainted) in compute_partials.
+
+    A store is 'whole' when it happens while the whole view is perturbed (`view += step`) and 'elem' when it
+    happens while one element is (`view[idx] += step`).  Tests on has_diag_partials and on the sizes of the
+    perturbed view / of the output view read are evaluated; membership tests and the is-scalar flag are free;
+    any other test is followed on both sides and taints the result.
+    """
     fn = repo.func(EC, 'ExecComp.compute_partials')
     d = Driver(fn)
     g, rd = d.g, d.rd
@@ -1281,34 +1355,111 @@ def _perturb_modes(repo):
     hdr = g.nodes_of(inloop)[0]
     body_entry = [m for m, lab in g.succ[hdr] if lab == 'true']
     vname = root_name(views[0].ast.target).id
+    odefs = d.out_defs()
+    onames = set(odefs.values())
 
     def role_of(e, at):
         if isinstance(e, ast.Name) and e.id == vname:
             return 'in'
+        if isinstance(e, ast.Name) and e.id in onames:
+            ds = rd.defs(at, e.id)
+            if ds and ds <= set(odefs):
+                return 'out'
         v, _ = resolve(rd, at, e)
         if isinstance(v, ast.Name) and v.id == vname:
             return 'in'
         return None
+    kind_of = {}
+    for a in views:
+        k = 'whole' if isinstance(a.ast.target, ast.Name) else 'elem'
+        for n in d.region(a):
+            if n.kind == 'stmt' and _jac_store(n.ast) is not None:
+                kind_of.setdefault(n, set()).add(k)
+    stores_outside = [n for n in g.body_nodes(inloop) if n.kind == 'stmt' and _jac_store(n.ast) is not None
+                      and n not in kind_of]
+    if stores_outside:
+        raise Unknown(stores_outside[0].ast)
 
-    def classify(n):
-        if n in d.adds:
-            return 'whole' if isinstance(n.ast.target, ast.Name) else 'elem'
+    def member(t):
+        """`K in partials` -> True, `K not in partials` -> False (the pair under study is declared), else None."""
+        if isinstance(t, ast.Compare) and len(t.ops) == 1 and isinstance(t.ops[0], (ast.In, ast.NotIn)) and \
+                astx.path(t.comparators[0]) == 'partials':
+            return isinstance(t.ops[0], ast.In)
+        return None
+
+    def free(t):
+        return isinstance(t, ast.Name) and 'scalar' in t.id
+    # deferred work lists: `L = []` in the input loop, `L.append(u)` under some condition, later `if L:` /
+    # `for u in L:` -- for one (out, inp) pair L "contains the pair" iff the append was reached
+    body = set(g.body_nodes(inloop))
+    lists = {n.ast.targets[0].id for n in body if n.kind == 'stmt' and isinstance(n.ast, ast.Assign)
+             and len(n.ast.targets) == 1 and isinstance(n.ast.targets[0], ast.Name)
+             and isinstance(n.ast.value, ast.List) and not n.ast.value.elts}
+    appends = {}
+    for n in body:
+        if n.kind == 'stmt' and isinstance(n.ast, ast.Expr) and isinstance(n.ast.value, ast.Call) and \
+                astx.callee_attr(n.ast.value) == 'append' and isinstance(astx.receiver(n.ast.value), ast.Name) and \
+                astx.receiver(n.ast.value).id in lists:
+            appends[n] = astx.receiver(n.ast.value).id
+
+    def list_test(t, filled):
+        """Truth value of `L`, `not L`, `len(L) > 0` for a deferred list L, else None."""
+        if isinstance(t, ast.Name) and t.id in lists:
+            return t.id in filled
+        if isinstance(t, ast.UnaryOp) and isinstance(t.op, ast.Not):
+            v = list_test(t.operand, filled)
+            return None if v is None else not v
+        if isinstance(t, ast.Call) and astx.call_name(t) == 'len' and t.args and isinstance(t.args[0], ast.Name) \
+                and t.args[0].id in lists:
+            return t.args[0].id in filled
+        if isinstance(t, ast.Compare) and len(t.ops) == 1 and isinstance(t.ops[0], ast.Gt) and \
+                isinstance(t.comparators[0], ast.Constant) and t.comparators[0].value == 0:
+            return list_test(t.left, filled)
         return None
     res = {}
     for s in STATES:
         env = dict(H=s[0], roles={'in': s[1], 'out': s[2]}, role_of=role_of)
-        res[s] = _walk_outcomes(g, body_entry[0], {hdr}, env, rd, classify)
-    # stores inside a whole perturbation may be conditional only on membership / scalar-ness
-    for a in views:
-        if isinstance(a.ast.target, ast.Name):
-            for n in d.region(a):
-                if n.kind == 'test' and isinstance(n.ast, ast.If):
+        filled = set()
+        while True:
+            kinds, tainted = set(), False
+            seen = set()
+            stack = [body_entry[0]]
+            while stack:
+                n = stack.pop()
+                if n in seen or n is hdr or n is g.exit or n is g.raise_exit:
+                    continue
+                seen.add(n)
+                if n in kind_of:
+                    kinds |= kind_of[n]
+                if n.kind == 'test' and isinstance(n.ast, (ast.If, ast.While)):
                     t = n.ast.test
-                    if isinstance(t, ast.Compare) and isinstance(t.ops[0], (ast.In, ast.NotIn)):
-                        continue
-                    if isinstance(t, ast.Name) and 'scalar' in t.id:
-                        continue
-                    raise Unknown(t)
+                    v = member(t)
+                    if v is None:
+                        v = list_test(t, filled)
+                    if v is None and not free(t):
+                        try:
+                            v = bool(_size_env_eval(t, env, rd, n))
+                        except Unknown:
+                            tainted = True
+                    for m, lab in g.succ[n]:
+                        if lab == 'exc':
+                            continue
+                        if v is None or (lab == 'true') == v or lab not in ('true', 'false'):
+                            stack.append(m)
+                elif n.kind == 'iter' and isinstance(n.ast.iter, ast.Name) and n.ast.iter.id in lists:
+                    for m, lab in g.succ[n]:
+                        if lab == 'exc' or (lab == 'true' and n.ast.iter.id not in filled):
+                            continue
+                        stack.append(m)
+                else:
+                    for m, lab in g.succ[n]:
+                        if lab != 'exc':
+                            stack.append(m)
+            now = {appends[n] for n in seen if n in appends}
+            if now <= filled:
+                break
+            filled |= now
+        res[s] = (kinds, tainted)
     return fn, d, res, inloop
 
 
@@ -1341,36 +1492,41 @@ def diag(repo, out):
             out.bad(where, node, why, key=key)
     for s in STATES:
         H, (ia, isz), (oa, osz) = s
-        dk, pk = D[s], P[s]
-        if len(dk) != 1 or len(pk) != 1:
-            out.unsure(fdecl if len(dk) != 1 else fn, None, f'ambiguous outcome {sorted(dk)} / {sorted(pk)} for {_fmt_state(s)}')
+        dk, (pk, tainted) = D[s], P[s]
+        if len(dk) != 1:
+            out.unsure(fdecl, None, f'ambiguous declaration outcome {sorted(dk)} for {_fmt_state(s)}')
             return
-        dk, pk = next(iter(dk)), next(iter(pk))
+        dk = next(iter(dk))
         if dk == 'none':
             bad(fdecl, dl.inner, f'no partial is declared for {_fmt_state(s)}', 'declare-none')
             continue
-        if pk == 'none':
-            bad(fn, inloop, f'input is not perturbed at all for {_fmt_state(s)}: its partials are never computed',
-                'perturb-none')
+        if dk == 'raise':
             continue
-        if dk == 'raise' or pk == 'raise':
-            continue
+        if dk == 'diag' and isz > 1 and osz > 1 and osz != isz:
+            continue   # the framework rejects a non-square diagonal declaration: same as the explicit raise
         if dk == 'diag' and not (H and isz > 1 and osz == isz):
             why = 'without has_diag_partials' if not H else f'for a {osz} x {isz} block'
             bad(fdecl, dl.inner, f'partial is declared diagonal {why} ({_fmt_state(s)})', 'diagonal-unsound')
             continue
-        if pk == 'whole' and isz > 1 and dk != 'diag':
+        verdict = None
+        if not pk:
+            verdict = (f'the partial is never stored for {_fmt_state(s)}', 'perturb-none')
+        elif len(pk) > 1:
+            tainted = True
+        elif pk == {'whole'} and isz > 1 and dk != 'diag':
             tag = 'has_diag' if H else 'no_diag'
-            bad(fn, inloop, f'for {_fmt_state(s)} the partial is declared DENSE ({osz} x {isz}) by _setup_partials but '
-                'compute_partials perturbs all elements of the input at once: every column receives the sum '
-                'of all columns', f'whole-perturbation-of-dense-partial:{tag},in>1,out={"1" if osz == 1 else "n"}')
-            continue
-        if pk == 'elem' and dk == 'diag':
-            bad(fn, inloop, f'for {_fmt_state(s)} the partial is declared diagonal but compute_partials writes '
-                'dense columns `[:, i]` into it', 'column-loop-on-diagonal-partial')
-            continue
-        if pk == 'elem' and isz == 1 and False:
-            pass
+            verdict = (f'for {_fmt_state(s)} the partial is declared DENSE ({osz} x {isz}) by _setup_partials but '
+                       'compute_partials stores it while ALL elements of the input are perturbed at once: every '
+                       'column receives the sum of all columns',
+                       f'whole-perturbation-of-dense-partial:{tag},in>1,out={"1" if osz == 1 else "n"}')
+        elif pk == {'elem'} and dk == 'diag':
+            verdict = (f'for {_fmt_state(s)} the partial is declared diagonal but compute_partials writes dense '
+                       'columns `[:, i]` into it', 'column-loop-on-diagonal-partial')
+        if tainted and (verdict is not None or len(pk) > 1):
+            out.unsure(fn, inloop, f'store mode for {_fmt_state(s)} depends on a condition that is not recognised')
+            return
+        if verdict is not None:
+            bad(fn, inloop, verdict[0], verdict[1])
     if not nbad:
         out.ok(fn, inloop, f'declared kind and perturbation mode agree on {len(STATES)} abstract states')
 
@@ -1674,7 +1830,7 @@ def coloring(repo, out):
                 continue
             if not (isinstance(t, ast.Subscript) or isinstance(n.ast, ast.AugAssign)):
                 continue
-            v, at2 = resolve(rd, n, ast.Name(id=r.id, ctx=ast.Load()))
+            v = rd.value(n, r.id)
             if isinstance(v, ast.Name) and v.id == sname:
                 aliased = (n, f'`{r.id}` is the snapshot `{sname}` itself, not a copy')
             elif isinstance(v, ast.Call) and astx.call_name(v) in ('np.asarray', 'numpy.asarray') and \
@@ -1688,7 +1844,7 @@ def coloring(repo, out):
 
 
 # =========================================================================== C14.views
-@rule('C14.views', floor=9)
+@rule('C14.views', floor=11)
 def views(repo, out):
     """_setup_vectors pairs inputs with _inarray / _indict and outputs with _outarray / outdict, takes them in complex mode, and sets _relcopy exactly when the arrays are private."""
     fn = repo.func(EC, 'ExecComp._setup_vectors')
@@ -1817,18 +1973,14 @@ def views(repo, out):
                               'imaginary part is lost (all partials zero)')
             elif any(u in g.reach(g.normal_succ(o), labels=cfgm.noexc) for o in off):
                 problem = (u, f'{vec} is read after complex-step mode was switched off again')
-        if problem is None:
-            if not off or g.path([m for o in on for m in g.normal_succ(o)], [g.exit], avoid=off,
-                                 labels=cfgm.noexc) is not None:
-                problem = (on[0], f'{vec} is left in complex-step mode after _setup_vectors')
         if problem:
             out.bad(fn, problem[0].ast, problem[1], key='views-complex-mode')
         else:
-            out.ok(fn, on[0].ast, f'{vec}: complex mode on -> views/array taken -> off')
+            out.ok(fn, on[0].ast, f'{vec}: views/array taken while complex mode is on')
 
 
 # =========================================================================== C14.exec
-@rule('C14.exec', floor=6)
+@rule('C14.exec', floor=7)
 def exec_sites(repo, out):
     """Every compiled expression is executed against the function table with the complex views (_exec) or the real vectors (compute); results are stored in place."""
     mod = repo.module(EC)
@@ -1884,6 +2036,7 @@ def exec_sites(repo, out):
     # _IODict construction order
     init = repo.func(EC, '_IODict.__init__')
     params = [a.arg for a in init.node.args.args[1:]]
+    sites, wrong = [], []
     for qn in ('ExecComp._setup_vectors', 'ExecComp.compute'):
         fn = repo.func(EC, qn)
         for c in astx.calls(fn.node):
@@ -1893,13 +2046,73 @@ def exec_sites(repo, out):
                 out.unsure(fn, astx.stmt_of(c), '_IODict call shape not recognised')
                 continue
             names = [(astx.path(a) or '').split('.')[-1].lstrip('_') for a in c.args]
+            sites.append((fn, c))
             if names == params:
-                out.ok(fn, astx.stmt_of(c), f'_IODict({", ".join(params)})')
+                pass
             elif sorted(names) == sorted(params):
-                out.bad(fn, astx.stmt_of(c), f'_IODict expects ({", ".join(params)}) but is given ({", ".join(names)})',
-                        key='iodict-args')
+                wrong.append((fn, c, names))
             else:
                 out.unsure(fn, astx.stmt_of(c), '_IODict arguments not recognised')
+    # compute() rebuilds a wrapper whose inputs are not the vector it was handed, so a single swapped site heals
+    # itself (or is only reached with foreign vectors): only a consistent swap is decided as wrong
+    if wrong and len(wrong) == len(sites):
+        for fn, c, names in wrong:
+            out.bad(fn, astx.stmt_of(c), f'_IODict expects ({", ".join(params)}) but is given ({", ".join(names)}) at '
+                    'every construction site: assignments go to the input vector', key='iodict-args')
+    elif wrong:
+        for fn, c, names in wrong:
+            out.unsure(fn, astx.stmt_of(c), f'_IODict given ({", ".join(names)}) at one of {len(sites)} sites')
+    else:
+        for fn, c in sites:
+            out.ok(fn, astx.stmt_of(c), f'_IODict({", ".join(params)})')
+    # reads hand out the complex view (or its complex scalar), never a real-valued projection
+    fn = repo.func(EC, '_ViewDict.__getitem__')
+    g = cfgm.build(fn)
+    rd = cfgm.ReachingDefs(g)
+    rets = g.where(lambda n: n.kind == 'stmt' and isinstance(n.ast, ast.Return))
+    nparam = fn.node.args.args[1].arg
+
+    def is_view(e, at):
+        if not isinstance(e, ast.Name):
+            return False
+        ds = rd.defs(at, e.id)
+        return bool(ds) and all(dn.kind == 'stmt' and isinstance(dn.ast, ast.Assign) and
+                                isinstance(dn.ast.value, ast.Subscript) and
+                                astx.path(dn.ast.value.value) == 'self.dct' and
+                                isinstance(dn.ast.value.slice, ast.Name) and dn.ast.value.slice.id == nparam and
+                                isinstance(dn.ast.targets[0], ast.Tuple) and
+                                isinstance(dn.ast.targets[0].elts[0], ast.Name) and
+                                dn.ast.targets[0].elts[0].id == e.id for dn in ds)
+
+    def classify_read(e, at):
+        """'ok' | 'real' | '?'"""
+        if isinstance(e, ast.IfExp):
+            parts = {classify_read(e.body, at), classify_read(e.orelse, at)}
+            return 'real' if 'real' in parts else ('?' if '?' in parts else 'ok')
+        if is_view(e, at):
+            return 'ok'
+        if isinstance(e, ast.Call) and isinstance(e.func, ast.Attribute) and e.func.attr == 'item' and \
+                is_view(e.func.value, at) and not e.args:
+            return 'ok'
+        if isinstance(e, ast.Subscript) and is_view(e.value, at):
+            return 'ok'
+        for w in astx.walk(e):
+            if isinstance(w, ast.Attribute) and w.attr == 'real' or \
+                    isinstance(w, ast.Call) and astx.call_name(w) in ('float', 'np.real', 'numpy.real', 'abs', 'np.abs'):
+                if any(is_view(x, at) for x in astx.walk(e)):
+                    return 'real'
+        return '?'
+    if not rets:
+        out.unsure(fn, fn.node, 'no return statement')
+    for r_ in rets:
+        k = classify_read(r_.ast.value, r_) if r_.ast.value is not None else '?'
+        if k == 'ok':
+            out.ok(fn, r_.ast, 'expressions read the complex view itself')
+        elif k == 'real':
+            out.bad(fn, r_.ast, 'expressions read a real-valued projection of the complex view: the complex step is '
+                    'dropped and every partial is zero', key='read-real-part')
+        else:
+            out.unsure(fn, r_.ast, 'value handed to the expressions not recognised')
     # in-place stores
     for qn, dest in (('_ViewDict.__setitem__', None), ('_IODict.__setitem__', 'self._outputs')):
         fn = repo.func(EC, qn)
@@ -1967,14 +2180,12 @@ ALIASES = {'arcsin': 'asin', 'arccos': 'acos', 'arctan': 'atan', 'arcsinh': 'asi
            'arctanh': 'atanh'}
 
 
-@rule('C14.table', floor=3)
+@rule('C14.table', floor=8)
 def table(repo, out):
     """No non-analytic numpy/scipy function enters _expr_dict unwrapped (abs and arctan2 come from cs_safe); aliases name the same function."""
     mod = repo.module(EC)
     final = {}   # name -> (source string, stmt)
     n_imports = 0
-    for st in mod.tree.body if False else ast.walk(mod.tree):
-        pass
     stmts = []
     for st in mod.tree.body:
         stmts.append(st)
@@ -2037,3 +2248,282 @@ def table(repo, out):
     if not nbad:
         out.ok(EC, mod.tree.body[0], f'{len(final)} table entries: none of the non-analytic functions is bound to '
                'numpy/scipy directly')
+
+
+# =========================================================================== self-test
+_DECL_BLOCK = '''            for outs, vs, _ in self._exprs_info:
+                ins = sorted(set(vs).difference(outs))
+                for out in sorted(outs):
+                    for inp in ins:
+                        if has_diag_partials:
+                            ival = nodes[('i', self.pathname + '.' + inp)]['attrs'].val
+                            oval = nodes[('o', self.pathname + '.' + out)]['attrs'].val
+                            iarray = isinstance(ival, ndarray) and ival.size > 1
+                            if iarray and isinstance(oval, ndarray) and oval.size > 1:
+                                if oval.size != ival.size:
+                                    raise RuntimeError(
+                                        "%s: has_diag_partials is True but partial(%s, %s) "
+                                        "is not square (shape=(%d, %d))." %
+                                        (self.msginfo, out, inp, oval.size, ival.size))
+                                # partial will be declared as diagonal
+                                decl_partials(of=out, wrt=inp, diagonal=True)
+                            else:
+                                decl_partials(of=out, wrt=inp)
+                        else:
+                            decl_partials(of=out, wrt=inp)
+'''
+_DECL_BLOCK_COND = "            if self.options['do_coloring']:\n" + \
+    ''.join('    ' + ln + '\n' for ln in _DECL_BLOCK.splitlines())
+_RAISE = '''                                if oval.size != ival.size:
+                                    raise RuntimeError(
+                                        "%s: has_diag_partials is True but partial(%s, %s) "
+                                        "is not square (shape=(%d, %d))." %
+                                        (self.msginfo, out, inp, oval.size, ival.size))
+'''
+
+selftest(
+    'C14',
+    # ---- perturb
+    Mutant('perturb-whole-no-restore', EC, '                # restore old input value\n                ival -= step\n', '',
+           'C14.perturb'),
+    Mutant('perturb-restore-other-element', EC, '                    ival[idx] -= step', '                    ival[i] -= step',
+           'C14.perturb'),
+    Mutant('perturb-colored-double-add', EC, '            inarr[icols] -= step', '            inarr[icols] += step',
+           'C14.perturb'),
+    Mutant('perturb-colored-restore-before-exec', EC,
+           '            inarr[icols] += step\n\n            # solve with complex input value\n            self._exec()\n',
+           '            inarr[icols] += step\n            inarr[icols] -= step\n\n            self._exec()\n'
+           '            inarr[icols] += step\n', 'C14.perturb'),
+    Mutant('perturb-real-step', EC, '                    ival[idx] += step\n', '                    ival[idx] += inv_stepsize\n',
+           'C14.perturb'),
+    # ---- extract
+    Mutant('extract-scale-not-inverted', EC, '        inv_stepsize = 1.0 / self.complex_stepsize',
+           '        inv_stepsize = self.complex_stepsize', 'C14.extract', nth=2),
+    Mutant('extract-real-part', EC, 'partials[u, inp] = imag(subval * inv_stepsize).ravel()',
+           'partials[u, inp] = (subval * inv_stepsize).real.ravel()', 'C14.extract'),
+    Mutant('extract-no-imag', EC, 'partials[u, inp][:, i] = imag(subval * inv_stepsize).flat',
+           'partials[u, inp][:, i] = (subval * inv_stepsize).flat', 'C14.extract'),
+    Mutant('extract-colored-times-h', EC, '            imag_oar = imag(oarr * inv_stepsize)',
+           '            imag_oar = imag(oarr) * self.complex_stepsize', 'C14.extract'),
+    Mutant('extract-before-exec', EC,
+           '                self._exec()\n                jac.set_col(self, i, imag(oarr * inv_stepsize))\n',
+           '                jac.set_col(self, i, imag(oarr * inv_stepsize))\n                self._exec()\n', 'C14.extract'),
+    Mutant('extract-from-inputs', EC, '        oarr = self._outarray\n        out_names',
+           '        oarr = self._inarray\n        out_names', 'C14.extract'),
+    Mutant('extract-after-restore', EC,
+           '            imag_oar = imag(oarr * inv_stepsize)\n            scratch[:] = 0.\n',
+           '            inarr[icols] -= step\n            self._exec()\n            imag_oar = imag(oarr * inv_stepsize)\n'
+           '            scratch[:] = 0.\n            inarr[icols] += step\n', ['C14.extract', 'C14.perturb']),
+    # ---- slot
+    Mutant('slot-key-swapped', EC,
+           '                        if (u, inp) in partials:\n                            # set the column in the Jacobian entry\n'
+           '                            subval, subval_is_scalar = vdict[u]\n                            if subval_is_scalar:\n'
+           '                                partials[u, inp][:, i] = imag(subval * inv_stepsize)\n                            else:\n'
+           '                                partials[u, inp][:, i] = imag(subval * inv_stepsize).flat',
+           '                        if (inp, u) in partials:\n                            # set the column in the Jacobian entry\n'
+           '                            subval, subval_is_scalar = vdict[u]\n                            if subval_is_scalar:\n'
+           '                                partials[inp, u][:, i] = imag(subval * inv_stepsize)\n                            else:\n'
+           '                                partials[inp, u][:, i] = imag(subval * inv_stepsize).flat', 'C14.slot'),
+    Mutant('slot-row-instead-of-column', EC, 'partials[u, inp][:, i] = imag(subval * inv_stepsize).flat',
+           'partials[u, inp][i, :] = imag(subval * inv_stepsize).flat', 'C14.slot'),
+    Mutant('slot-colored-key-swapped', EC, '                    key = (out_name, in_name)', '                    key = (in_name, out_name)',
+           'C14.slot'),
+    Mutant('slot-colored-global-column', EC, 'loc_i = icol - in_slices[in_name].start', 'loc_i = icol', 'C14.slot'),
+    Mutant('slot-colored-plus-start', EC, 'loc_i = icol - in_slices[in_name].start', 'loc_i = icol + in_slices[in_name].start',
+           'C14.slot'),
+    Mutant('slot-colored-zip-order', EC, 'for icol, rows in zip(icols, nzrowlists):', 'for icol, rows in zip(nzrowlists, icols):',
+           'C14.slot'),
+    Mutant('slot-colored-direction', EC, "color_nonzero_iter('fwd')", "color_nonzero_iter('rev')", 'C14.slot'),
+    Mutant('slot-colored-scratch-leak', EC, '                        partials[key][:, loc_i] = part\n                        part[:] = 0.\n',
+           '                        partials[key][:, loc_i] = part\n', 'C14.slot'),
+    Mutant('slot-in-slices-from-outputs', EC,
+           'self._in_slices = {n[plen:]: slice(start, stop) for n, start, stop in self._inputs.ranges()}',
+           'self._in_slices = {n[plen:]: slice(start, stop) for n, start, stop in self._outputs.ranges()}', 'C14.slot'),
+    Mutant('slot-idx2name-from-outputs', EC, '        for name, start, stop in self._inputs.ranges():\n            name = name[plen:]',
+           '        for name, start, stop in self._outputs.ranges():\n            name = name[plen:]', 'C14.slot'),
+    Mutant('slot-of-names-inputs', EC, "        out_names = self._var_rel_names['output']\n        inv_stepsize",
+           "        out_names = self._var_rel_names['input']\n        inv_stepsize", 'C14.slot'),
+    Mutant('slot-value-of-input-view', EC, '                        subval, subval_is_scalar = vdict[u]\n                        if subval_is_scalar:\n'
+           '                            partials[u, inp] =',
+           '                        subval, subval_is_scalar = vdict[inp]\n                        if subval_is_scalar:\n'
+           '                            partials[u, inp] =', 'C14.slot'),
+    Mutant('slot-colored-part-of-input', EC, 'part = scratch[out_slices[out_name]]', 'part = scratch[in_slices[in_name]]',
+           ['C14.slot']),
+    # ---- declare
+    Mutant('declare-wrt-set-reversed', EC, '                ins = sorted(set(vs).difference(outs))\n                for out in sorted(outs):\n                    for inp in ins:\n                        if has_diag',
+           '                ins = sorted(set(outs).difference(vs))\n                for out in sorted(outs):\n                    for inp in ins:\n                        if has_diag', 'C14.declare'),
+    Mutant('declare-of-wrt-swapped', EC, '                            decl_partials(of=out, wrt=inp)\n\n        super()._setup_partials()',
+           '                            decl_partials(of=inp, wrt=out)\n\n        super()._setup_partials()', 'C14.declare'),
+    Mutant('declare-filter-continue', EC, '                    for inp in ins:\n                        if has_diag_partials:',
+           "                    for inp in ins:\n                        if inp.startswith('_'):\n                            continue\n"
+           '                        if has_diag_partials:', 'C14.declare'),
+    Mutant('declare-only-when-coloring', EC, _DECL_BLOCK, _DECL_BLOCK_COND, 'C14.declare'),
+    Mutant('declare-after-resolution', EC,
+           "        has_diag_partials = self.options['has_diag_partials']\n        if not self._manual_decl_partials:",
+           "        has_diag_partials = self.options['has_diag_partials']\n        super()._setup_partials()\n"
+           "        if not self._manual_decl_partials:", 'C14.declare',
+           also=[(EC, '                            decl_partials(of=out, wrt=inp)\n\n        super()._setup_partials()\n',
+                  '                            decl_partials(of=out, wrt=inp)\n\n')]),
+    # ---- diag
+    Mutant('diag-guard-size-only', EC, '            if has_diag_partials or psize == 1:', '            if psize == 1:', 'C14.diag'),
+    Mutant('diag-guard-ge', EC, '            if has_diag_partials or psize == 1:', '            if has_diag_partials or psize >= 1:',
+           'C14.diag'),
+    Mutant('diag-declared-dense', EC, 'decl_partials(of=out, wrt=inp, diagonal=True)', 'decl_partials(of=out, wrt=inp)', 'C14.diag'),
+    Mutant('diag-declared-always', EC, '                            else:\n                                decl_partials(of=out, wrt=inp)\n',
+           '                            else:\n                                decl_partials(of=out, wrt=inp, diagonal=True)\n', 'C14.diag'),
+    # ---- sync
+    Mutant('sync-rebinds-local', EC, '        inarr[:] = self._inputs.asarray(copy=False)\n\n        for inp, (ival, _)',
+           '        inarr = self._inputs.asarray(copy=False)\n\n        for inp, (ival, _)', 'C14.sync'),
+    Mutant('sync-colored-missing', EC, '        inarr[:] = self._inputs.asarray(copy=False)\n        scratch', '        scratch', 'C14.sync'),
+    Mutant('sync-compute-copy-dest', EC, '                outs = outputs.asarray(copy=False)', '                outs = outputs.asarray(copy=True)',
+           'C14.sync'),
+    Mutant('sync-compute-no-input-copy', EC, '                self._inarray[:] = self._inputs.asarray(copy=False)\n                self._exec()',
+           '                self._exec()', 'C14.sync'),
+    Mutant('sync-compute-back-before-exec', EC,
+           '                self._exec()\n                outs = outputs.asarray(copy=False)\n                if outs.dtype.kind == self._outarray.dtype.kind:\n'
+           '                    outs[:] = self._outarray\n                else:\n                    outs[:] = self._outarray.real\n',
+           '                outs = outputs.asarray(copy=False)\n                if outs.dtype.kind == self._outarray.dtype.kind:\n'
+           '                    outs[:] = self._outarray\n                else:\n                    outs[:] = self._outarray.real\n'
+           '                self._exec()\n', 'C14.sync'),
+    # ---- coloring
+    Mutant('coloring-snapshot-is-view', EC, 'copy=not self._relcopy', 'copy=self._relcopy', 'C14.coloring'),
+    Mutant('coloring-offsets-alias', EC, 'in_offsets = starting_inputs.copy()', 'in_offsets = starting_inputs', 'C14.coloring'),
+    Mutant('coloring-loop-over-outputs', EC, '            for i in range(inarr.size):', '            for i in range(oarr.size):',
+           'C14.coloring'),
+    Mutant('coloring-restore-wrong-mode', EC, '        if not self._relcopy:\n            self._inputs.set_val(starting_inputs)',
+           '        if self._relcopy:\n            self._inputs.set_val(starting_inputs)', 'C14.coloring'),
+    Mutant('coloring-no-restore', EC, '        if not self._relcopy:\n            self._inputs.set_val(starting_inputs)\n', '',
+           'C14.coloring'),
+    # ---- views
+    Mutant('views-relcopy-not-set', EC, '                self._relcopy = True\n', '', 'C14.views'),
+    Mutant('views-inputs-into-outarray', EC, 'self._indict = self._inputs._get_local_views(self._inarray)',
+           'self._indict = self._inputs._get_local_views(self._outarray)', 'C14.views'),
+    Mutant('views-outputs-real-storage', EC, '                self._outputs.set_complex_step_mode(True)\n', '', 'C14.views'),
+    Mutant('views-outdict-of-inputs', EC, '                outdict = self._outputs._get_local_views()', '                outdict = self._inputs._get_local_views()',
+           'C14.views'),
+    Mutant('views-real-outarray', EC, 'self._outarray = np.zeros(len(self._outputs), dtype=complex)',
+           'self._outarray = np.zeros(len(self._outputs), dtype=float)', 'C14.views'),
+    # ---- exec
+    Mutant('exec-on-real-vectors', EC, 'exec(expr, _expr_dict, self._viewdict)', 'exec(expr, _expr_dict, self._iodict)', 'C14.exec'),
+    Mutant('exec-store-rebinds', EC, '        val, _ = self.dct[name]\n        try:\n            val[:] = value\n',
+           '        val, _ = self.dct[name]\n        try:\n            val = value\n', 'C14.exec'),
+    Mutant('exec-iodict-args-swapped', EC, 'self._iodict = _IODict(self._outputs, self._inputs, self._constants)',
+           'self._iodict = _IODict(self._inputs, self._outputs, self._constants)', 'C14.exec',
+           also=[(EC, 'self._iodict = _IODict(outputs, inputs, self._constants)',
+                  'self._iodict = _IODict(inputs, outputs, self._constants)')]),
+    Mutant('exec-read-real-part', EC, '        return val.item() if is_scalar else val', '        return val.real.item() if is_scalar else val.real',
+           'C14.exec'),
+    Mutant('slot-coloring-computed-rev', EC, "coloring = _compute_coloring(sparsity, 'fwd')", "coloring = _compute_coloring(sparsity, 'rev')",
+           'C14.slot'),
+    Mutant('slot-scratch-uninitialised', EC, "            imag_oar = imag(oarr * inv_stepsize)\n            scratch[:] = 0.\n",
+           "            imag_oar = imag(oarr * inv_stepsize)\n", 'C14.slot'),
+    Mutant('exec-first-code-only', EC, '        for i, expr in enumerate(self._codes):\n            try:\n                exec(expr, _expr_dict, self._viewdict)',
+           '        for i, expr in enumerate(self._codes[:1]):\n            try:\n                exec(expr, _expr_dict, self._viewdict)', 'C14.exec'),
+    # ---- table
+    Mutant('table-numpy-abs', EC, "_expr_dict['abs'] = cs_safe.abs", "_expr_dict['abs'] = np.abs", 'C14.table'),
+    Mutant('table-alias-mixup', EC, "('arccos', 'acos')", "('arccos', 'asin')", 'C14.table'),
+    Mutant('table-sign-added', EC, "'log', 'log10', 'log1p', 'power',  # Math operations",
+           "'log', 'log10', 'log1p', 'power', 'sign',  # Math operations", 'C14.table'),
+    Mutant('table-abs-from-numpy-list', EC, "'exp', 'expm1', 'fmax', 'min', 'max', 'diff',", "'exp', 'expm1', 'fmax', 'min', 'max', 'diff', 'abs',",
+           'C14.table', also=[(EC, "_expr_dict['abs'] = cs_safe.abs\n", '')]),
+    # ---- twins
+    Twin('twin-rename-view', EC, 'ival', 'vw', nth='all'),
+    Twin('twin-flip-guard', EC, '            if has_diag_partials or psize == 1:', '            if 1 == psize or has_diag_partials:'),
+    Twin('twin-extracted-temporary', EC, '                            partials[u, inp] = imag(subval * inv_stepsize)\n',
+         '                            tmp = subval * inv_stepsize\n                            partials[u, inp] = imag(tmp)\n'),
+    Twin('twin-reorder-independent', EC,
+         "        step = self.complex_stepsize * 1j\n        out_names = self._var_rel_names['output']\n        inv_stepsize = 1.0 / self.complex_stepsize\n",
+         "        inv_stepsize = 1.0 / self.complex_stepsize\n        out_names = self._var_rel_names['output']\n        step = 1j * self.complex_stepsize\n"),
+    Twin('twin-divide-by-h', EC, '            imag_oar = imag(oarr * inv_stepsize)', '            imag_oar = imag(oarr / self.complex_stepsize)'),
+    Twin('twin-imag-attribute', EC, '            imag_oar = imag(oarr * inv_stepsize)', '            imag_oar = (oarr * inv_stepsize).imag'),
+    Twin('twin-set-minus', EC, '                ins = sorted(set(vs).difference(outs))\n                for out in sorted(outs):\n                    for inp in ins:\n                        if has_diag',
+         '                ins = sorted(set(vs) - set(outs))\n                for out in sorted(outs):\n                    for inp in ins:\n                        if has_diag'),
+    Twin('twin-flip-size-compare', EC, 'if iarray and isinstance(oval, ndarray) and oval.size > 1:',
+         'if iarray and isinstance(oval, ndarray) and 1 < oval.size:'),
+    Twin('twin-zip-swapped-consistently', EC, 'for icol, rows in zip(icols, nzrowlists):', 'for rows, icol in zip(nzrowlists, icols):'),
+    Twin('twin-restore-guard-flipped', EC, '        if not self._relcopy:\n            self._inputs.set_val(starting_inputs)\n',
+         '        if self._relcopy:\n            pass\n        else:\n            self._inputs.set_val(starting_inputs)\n'),
+    Twin('twin-snapshot-always-copy', EC, 'copy=not self._relcopy', 'copy=True'),
+)
+
+# the pre-fix shape of the has_diag_partials / size-1 output defect (applicable once compute_partials defers such
+# outputs to a per-element pass; inapplicable on a tree that still has the defect, where C14.diag fires directly)
+selftest(
+    'C14',
+    Mutant('diag-scalar-output-defect', EC, 'if psize > 1 and subval.size == 1:', 'if psize > 1 and subval.size == 0:',
+           'C14.diag'),
+)
+
+_WHOLE = '''                # set a complex inpup value
+                ival += step
+
+                # solve with complex input value
+                self._exec()
+
+                for u in out_names:
+                    if (u, inp) in partials:
+                        subval, subval_is_scalar = vdict[u]
+                        if subval_is_scalar:
+                            partials[u, inp] = imag(subval * inv_stepsize)
+                        else:
+                            partials[u, inp] = imag(subval * inv_stepsize).ravel()
+
+                # restore old input value
+                ival -= step
+'''
+_ELEM = '''                for i, idx in enumerate(array_idx_iter(ival.shape)):
+                    # set a complex input value
+                    ival[idx] += step
+
+                    # solve with complex input value
+                    self._exec()
+
+                    for u in out_names:
+                        if (u, inp) in partials:
+                            # set the column in the Jacobian entry
+                            subval, subval_is_scalar = vdict[u]
+                            if subval_is_scalar:
+                                partials[u, inp][:, i] = imag(subval * inv_stepsize)
+                            else:
+                                partials[u, inp][:, i] = imag(subval * inv_stepsize).flat
+
+                    # restore old input value
+                    ival[idx] -= step
+'''
+_RELCOPY = '''            if self._relcopy:
+                self._inarray[:] = self._inputs.asarray(copy=False)
+                self._exec()
+                outs = outputs.asarray(copy=False)
+                if outs.dtype.kind == self._outarray.dtype.kind:
+                    outs[:] = self._outarray
+                else:
+                    outs[:] = self._outarray.real
+            else:
+                self._exec()
+'''
+_RELCOPY_FLIPPED = '''            if not self._relcopy:
+                self._exec()
+            else:
+                self._inarray[:] = inputs.asarray()
+                self._exec()
+                outs = outputs.asarray(copy=False)
+                if outs.dtype.kind == self._outarray.dtype.kind:
+                    outs[:] = self._outarray
+                else:
+                    outs[:] = self._outarray.real
+'''
+
+selftest(
+    'C14',
+    Twin('twin-branches-flipped', EC,
+         '            if has_diag_partials or psize == 1:\n' + _WHOLE + '            else:\n' + _ELEM,
+         '            if not (has_diag_partials or psize == 1):\n' + _ELEM + '            else:\n' + _WHOLE),
+    Twin('twin-compute-branches-flipped', EC, _RELCOPY, _RELCOPY_FLIPPED),
+    Twin('twin-inline-out-names', EC, '                for u in out_names:\n                    if (u, inp) in partials:\n                        subval',
+         "                for u in self._var_rel_names['output']:\n                    if (u, inp) in partials:\n                        subval"),
+    Twin('twin-step-inlined', EC, '            inarr[icols] += step\n', '            inarr[icols] += self.complex_stepsize * 1j\n',
+         also=[(EC, '            inarr[icols] -= step\n', '            inarr[icols] -= self.complex_stepsize * 1j\n')]),
+    Twin('twin-scratch-cleared-by-rows', EC, '                        part[:] = 0.\n', '                        part[:] = 0.0\n'),
+    Twin('twin-decl-positional', EC, '                                decl_partials(of=out, wrt=inp, diagonal=True)',
+         '                                decl_partials(out, inp, diagonal=True)'),
+)
